@@ -56,8 +56,14 @@ fn case_strategy() -> BoxedStrategy<C15Case> {
                         opts.disk = 1; // pinned ssd: suffix stage for files above 64 KiB
                     }
                     if let Some(t) = &mut opts.transform {
-                        // keep to well-behaved transforms here
-                        t.io = TrIo::Pipe;
+                        // well-behaved transforms: fed through a pipe, or - every other time - reading the
+                        // original file themselves ($IN with --no-copy), so that a read fault hits the child
+                        if pair_seeds[0] % 2 == 0 && matches!(t.op, TrOp::Cat | TrOp::Upper | TrOp::Expand | TrOp::Header) {
+                            t.io = TrIo::In;
+                            opts.no_copy = true;
+                        } else {
+                            t.io = TrIo::Pipe;
+                        }
                     }
                     C15Case { tree, roots, opts, ext4, faults: None, pair_seeds, repeat_root }
                 },
@@ -307,6 +313,21 @@ pub fn run_case(ctx: &Ctx, c: &C15Case, n: u64) -> Verdict {
                         }
                     }
                 }
+                // with -S a reported symlink stands for the file it resolves to: when that file cannot be
+                // read, it is left out under all the names that lead to it (the file and every link to it)
+                if c.opts.symbolic_links {
+                    if let Ok(m) = std::fs::metadata(x) {
+                        if m.is_file() {
+                            for e in &built.entries {
+                                if let Ok(m2) = std::fs::metadata(&e.abs) {
+                                    if m2.is_file() && (m2.dev(), m2.ino()) == (m.dev(), m.ino()) {
+                                        v.push(e.abs.clone());
+                                    }
+                                }
+                            }
+                        }
+                    }
+                }
                 v.sort();
                 v.dedup();
                 v
@@ -401,6 +422,44 @@ pub fn run_case(ctx: &Ctx, c: &C15Case, n: u64) -> Verdict {
                 ok = true;
                 break;
             }
+            // symlinks reported with -S that point at a hidden entry: the fault hides the entry from the
+            // walk, the link still resolves (the reference removed the entry physically, so there the link
+            // dangles) - such links are left out of the comparison on both sides
+            if c.opts.symbolic_links && !removed.is_empty() {
+                // (hop by hop: a chain of links may pass through the hidden entry and end elsewhere)
+                let into_removed = |p: &Vec<u8>| {
+                    let mut cur = bytes_path(p);
+                    if !cur.is_symlink() {
+                        return false;
+                    }
+                    for _ in 0..16 {
+                        let Ok(t) = std::fs::read_link(&cur) else { return false };
+                        let next = if t.is_absolute() { t } else { cur.parent().map(|d| d.join(&t)).unwrap_or(t) };
+                        // normalise `..` textually against the real parent
+                        let next = match (next.parent().and_then(|d| std::fs::canonicalize(d).ok()), next.file_name()) {
+                            (Some(d), Some(n)) => d.join(n),
+                            _ => next,
+                        };
+                        if removed.iter().any(|r| next.starts_with(r)) {
+                            return true;
+                        }
+                        if !next.is_symlink() {
+                            return false;
+                        }
+                        cur = next;
+                    }
+                    false
+                };
+                let strip = |gs: &Vec<(u64, Vec<Vec<u8>>)>| -> Vec<(u64, Vec<Vec<u8>>)> {
+                    let mut v: Vec<(u64, Vec<Vec<u8>>)> = gs.iter().map(|(l, ps)| (*l, ps.iter().filter(|p| !into_removed(p)).cloned().collect::<Vec<_>>())).filter(|(_, ps)| !ps.is_empty()).collect();
+                    v.sort();
+                    v
+                };
+                if strip(&got) == strip(&expected) {
+                    ok = true;
+                    break;
+                }
+            }
         }
         if let Some(p) = must_be_absent.iter().find(|p| got.iter().any(|g| g.1.contains(p))) {
             ctx.report_limited(&case, &mk("unreadable-file-reported-in-group", format!("{:?} could not be read completely but is listed in a group\ngot: {}", B(p.clone()), describe_groups(&got))), 3);
@@ -484,6 +543,8 @@ fn walk_case_strategy() -> BoxedStrategy<C15Case> {
                 let mut opts = GOpts::default();
                 opts.symbolic_links = sl;
                 opts.min0 = hidden;
+                // every selected file is listed, so that a change of the selection is visible
+                opts.rf = RfOpt::Over(0);
                 C15Case { tree, roots, opts, ext4: false, faults: None, pair_seeds, repeat_root: false }
             })
         })
@@ -498,11 +559,11 @@ pub fn check(tier: Tier) -> i32 {
     }
     replay_corpus::<C15Case, _>(&ctx, |c, n| run_case(&ctx, c, n));
     drive(&ctx, "main", tier.pick(64, 900), case_strategy, |c, n| run_case(&ctx, c, n));
-    drive(&ctx, "walk", tier.pick(20, 400), walk_case_strategy, |c, n| run_case(&ctx, c, n));
+    drive(&ctx, "walk", tier.pick(12, 300), walk_case_strategy, |c, n| run_case(&ctx, c, n));
     cleanup_process_scratch();
     ctx.finish(
         "fault_enumeration",
-        "proptest-generated scenario trees (4-9 files up to 140 KB, nested directories, hard links, near-duplicates; tmpfs and ext4; in a quarter of the scenarios the first root is given twice) x group options (cache, transform, pinned device kind, hash fn, stage knobs). The read-side libc calls (stat, lstat, open, n-th read, opendir, n-th readdir, readlink, FIEMAP ioctl) of a clean run are recorded per tree entry with the LD_PRELOAD interposer; then for EVERY entry strictly below the roots, EVERY recorded call occurrence (capped at 6-8 per function and path) and every applicable errno (EACCES, EIO, ENOENT) one run is made with that single call failing, plus sampled pairs on two different entries and, for every two files of equal length, the same n-th read failing in both; a quarter of the scenarios run with --skip-content-hash (pinned SSD, suffix stage above 64 KiB). Metamorphic oracle: the report must equal a clean run on the tree with the affected entry physically removed (the file; the sub-tree for directory faults; the children not yet returned for a readdir fault; nothing for FIEMAP) - or, for faults on metadata calls that fclones may tolerate, the clean report of the full tree; exit status 0; a warning unless the errno is ENOENT; a file whose open/read failed is in no group. After a faulted run with --cache the next run on the same cache, without fault, must equal the clean run. A second generator takes the trees of the C09 generator (ignore files on several levels, hidden names, file/directory symlinks, nesting 0-4) so that faults also hit ignore files, links and nested directories during the walk. evaluations = faulted runs; non-trivial = the faulted entry is (or contains) a member of a group of the clean report and the fault hits open/read.",
+        "proptest-generated scenario trees (4-9 files up to 140 KB, nested directories, hard links, near-duplicates; tmpfs and ext4; in a quarter of the scenarios the first root is given twice) x group options (cache, transform - fed through a pipe or reading the original file itself as $IN under --no-copy -, pinned device kind, hash fn, stage knobs). The read-side libc calls (stat, lstat, open, n-th read, opendir, n-th readdir, readlink, FIEMAP ioctl) of a clean run are recorded per tree entry with the LD_PRELOAD interposer; then for EVERY entry strictly below the roots, EVERY recorded call occurrence (capped at 6-8 per function and path) and every applicable errno (EACCES, EIO, ENOENT) one run is made with that single call failing, plus sampled pairs on two different entries and, for every two files of equal length, the same n-th read failing in both; a quarter of the scenarios run with --skip-content-hash (pinned SSD, suffix stage above 64 KiB). Metamorphic oracle: the report must equal a clean run on the tree with the affected entry physically removed (the file; the sub-tree for directory faults; the children not yet returned for a readdir fault; nothing for FIEMAP) - or, for faults on metadata calls that fclones may tolerate, the clean report of the full tree; exit status 0; a warning unless the errno is ENOENT; a file whose open/read failed is in no group. After a faulted run with --cache the next run on the same cache, without fault, must equal the clean run. A second generator takes the trees of the C09 generator (ignore files on several levels, hidden names, file/directory symlinks, nesting 0-4) with --rf-over 0 (every selected file is listed) so that faults also hit ignore files, links and nested directories during the walk. evaluations = faulted runs; non-trivial = the faulted entry is (or contains) a member of a group of the clean report and the fault hits open/read.",
         &["faults are injected at libc level by path and occurrence number, independent of the schedule", "the harness runs as root, so permission bits cannot make files unreadable"],
     )
 }
